@@ -85,7 +85,7 @@ func loadProg(repo, verif string, patterns []string) (*Prog, error) {
 			p.byName[pk.Name] = pk
 		}
 	}
-	prog, spkgs := ssautil.AllPackages(pkgs, ssa.InstantiateGenerics)
+	prog, spkgs := ssautil.AllPackages(pkgs, ssa.InstantiateGenerics|ssa.GlobalDebug)
 	prog.Build()
 	p.ssa = prog
 	for _, sp := range spkgs {
